@@ -197,6 +197,8 @@ import BGV
 #print axioms BGV.C11_findAllGeodesicsFromVertex
 #print axioms BGV.C11_reconstructed_path_nodup
 #print axioms BGV.C11_findGeodesics_nodup
+#print axioms BGV.C11_shortest_path_nodup
+#print axioms BGV.C11_findAllGeodesics_paths_nodup
 #print axioms BGV.C11_findSourceVertex_spec
 
 -- C12
